@@ -55,7 +55,7 @@ func init() {
 	}
 
 	checks["C02"] = func(r *Report, p *Program, tier string) {
-		r.Explanation = "Decides the reply side: 31 reply layouts and the event layout equal the protocol's (L6, L7, L7e), result wiring and the sentinel decision tables of all reply-bearing operations equal spec/ops.json on every path (A6: card 0 / 0xffffffff, echoed card or profile mismatch, event type 0xff, index 0, profile 0, status event present iff index != 0), GetStatus and the listener agree (A6s), read extents/byte order/boolean table of every kind (K1-K3), nested decode errors (K5), zero 'no value' images (K9), out-of-domain handling of BCD, calendar and HH:mm values (K10, K10a, K10b). Not decided: time.ParseInLocation's calendar validation and the positional BCD arithmetic (trusted / C12)."
+		r.Explanation = "Decides the reply side: 31 reply layouts and the event layout equal the protocol's (L6, L7, L7e), result wiring and the sentinel decision tables of all reply-bearing operations equal spec/ops.json on every path (A6: card 0 / 0xffffffff, echoed card or profile mismatch, event type 0xff, index 0, profile 0, status event present iff index != 0), GetStatus and the listener agree (A6s), read extents/byte order/boolean table of every kind (K1-K3), nested decode errors (K5), zero 'no value' images (K9), out-of-domain handling of BCD, calendar and HH:mm values (K10, K10a, K10b). No state is kept between decodes (G1, G2). Not decided: time.ParseInLocation's calendar validation and the positional BCD arithmetic (trusted / C12)."
 		r.Assumptions = []string{"spec/wire.json and spec/ops.json state the protocol correctly", "time.ParseInLocation rejects impossible civil dates and times", "go/ssa is faithful"}
 		c := NewCodec(r, p, true)
 		if c == nil {
@@ -105,7 +105,7 @@ func init() {
 	}
 
 	checks["C04"] = func(r *Report, p *Program, tier string) {
-		r.Explanation = "Decides a closed inventory of panic-capable constructs in the library's packages: every index/slice expression (P1, each discharged by a stated bound rule), tables indexed by values that can come from the wire (P2), unchecked type assertions (P3), explicit panics (P4), divisions and constant regular expressions (P5), stores into maps reached through a receiver (J5), field kinds and offsets of every shipped layout so that the codec's panic defaults and buffer slicing are unreachable (L2, L3), nil-receiver tolerance of decoders used through pointer fields (K11), header checks before any indexing (F4), and the listener's shutdown order (LS5: the event pipe is closed only after its only sender, the driver's receive loop, has been awaited - a send on a closed channel panics). The thorough tier cross-checks the inventory against the Go compiler's list of bounds checks it could not eliminate. Not decided: panics inside the standard library or reflect misuse outside these forms, stack exhaustion, general nil dereference of caller-supplied pointers."
+		r.Explanation = "Decides a closed inventory of panic-capable constructs in the library's packages: every index/slice expression (P1, each discharged by a stated bound rule), tables indexed by values that can come from the wire (P2), unchecked type assertions (P3), explicit panics (P4), divisions and constant regular expressions (P5), stores into maps reached through a receiver (J5), field kinds and offsets of every shipped layout so that the codec's panic defaults and buffer slicing are unreachable (L2, L3), nil-receiver tolerance of decoders used through pointer fields (K11), header checks before any indexing (F4), and the listener's shutdown order (LS5: the event pipe is closed only after its only sender, the driver's receive loop, has been awaited - a send on a closed channel panics). The thorough tier cross-checks the inventory against the Go compiler's list of bounds checks it could not eliminate. A channel is closed only by code that runs once for it (P6). Not decided: panics inside the standard library or reflect misuse outside these forms, stack exhaustion, general nil dereference of caller-supplied pointers."
 		r.Assumptions = []string{"io contract: a read returns 0 <= n <= len(buffer)", "regexp.FindStringSubmatch returns nil or 1+groups entries", "fmt.Sprintf(\"%0Nv\") yields at least N characters", "codec.Marshal results are 64 bytes (rule K8)"}
 		c := NewCodec(r, p, false)
 		if c == nil {
@@ -124,7 +124,7 @@ func init() {
 	}
 
 	checks["C05"] = func(r *Report, p *Program, tier string) {
-		r.Explanation = "Decides necessary structural conditions of invertibility: per kind, encoder and decoder agree on extent, byte order and constant images (K1-K3) and handle the same kind set (K7); per layout, fields are pairwise disjoint and inside the 64 bytes, so no two fields share a byte and decoders read only their own bytes (L3, L4); the zero 'no value' date/date-time image round-trips independently of the zone (K9); the dispatcher tables are exact and guarded (L6 both directions, F4). Not decided: value-level bijectivity of BCD∘time for every value, nor behaviour under each IANA zone (C13 covers the structural zone hazards)."
+		r.Explanation = "Decides necessary structural conditions of invertibility: per kind, encoder and decoder agree on extent, byte order and constant images (K1-K3) and handle the same kind set (K7); per layout, fields are pairwise disjoint and inside the 64 bytes, so no two fields share a byte and decoders read only their own bytes (L3, L4); the zero 'no value' date/date-time image round-trips independently of the zone (K9); the dispatcher tables are exact and guarded (L6 both directions, F4). Field encoders are total (K21: an encoder that refuses a value makes the codec send zeros for it) and no message makes a dispatcher panic (P1/P2 sites of package messages). Not decided: value-level bijectivity of BCD∘time for every value, nor behaviour under each IANA zone (C13 covers the structural zone hazards)."
 		r.Assumptions = []string{"spec/wire.json and spec/kinds.json state the protocol correctly", "go/ssa is faithful"}
 		c := NewCodec(r, p, true)
 		if c == nil {
@@ -139,6 +139,9 @@ func init() {
 		RuleK9(r, c)
 		RuleK21(r, c) // a value the encoder refuses is sent as zeros: it shares its encoding with the zero value
 		RuleF4(r, p)
+		// "the dispatchers reject": a message that makes a dispatcher panic is not rejected - the index and slice
+		// sites of package messages are discharged
+		RulePanicIn(r, p, tier, "messages", map[string]int{"P1": 2, "P2": 0})
 		RuleZone(r, p, c)
 		RuleInstants(r, p)
 		RuleK10c(r, c)
@@ -158,7 +161,7 @@ func init() {
 	}
 
 	checks["C07"] = func(r *Report, p *Program, tier string) {
-		r.Explanation = "Decides, per operation, the complete rejection decision table and that nothing is sent on a rejected path (A5, A2): controller id 0 on all 31 id-taking operations and again in the send helper (F1), PutCard's sentinel card numbers and PIN bound, SetListener's address table, SetAddress's three IPv4 tests, SetDoorPasscodes' door range and the four clamps (A4), SetTimeProfile's date, missing-segment and end-before-start guards; any additional early return is reported as an undocumented rejection. The card-format predicate is decided separately (W26, W26f). Regions are cut by the comparison constants of code and contract together, so > vs >= and off-by-one bounds are distinguished exactly."
+		r.Explanation = "Decides, per operation, the complete rejection decision table and that nothing is sent on a rejected path (A5, A2): controller id 0 on all 31 id-taking operations and again in the send helper (F1), PutCard's sentinel card numbers and PIN bound, SetListener's address table, SetAddress's three IPv4 tests, SetDoorPasscodes' door range and the four clamps (A4), SetTimeProfile's date, missing-segment and end-before-start guards; any additional early return is reported as an undocumented rejection. The card-format predicate is decided separately (W26, W26f). Regions are cut by the comparison constants of code and contract together, so > vs >= and off-by-one bounds are distinguished exactly. The HH:mm order the segment check relies on is the lexicographic one (O2)."
 		r.Assumptions = []string{"spec/ops.json states the documented rejections", "fmt.Sprintf(\"%08v\", uint32) has 8..10 characters", "go/ssa is faithful"}
 		RuleAPI(r, p, declareAPI(r, []string{"A0", "A2", "A4", "A5"}, map[string]int{"A2": 32, "A4": 100, "A5": 32, "A0": 0}), nil)
 		RuleFilter(r, p, aspectSet{"F1": true})
@@ -166,6 +169,10 @@ func init() {
 		// "a missing date": the zero test SetTimeProfile relies on
 		r.Only = map[string]bool{"Z6": true}
 		RuleInstants(r, p)
+		r.Only = nil
+		// "a segment that ends before it starts": the HH:mm order SetTimeProfile relies on
+		r.Only = map[string]bool{"O2": true, "O2v": true}
+		RuleOrder(r, p, tier)
 		r.Only = nil
 	}
 
@@ -188,7 +195,7 @@ func init() {
 	}
 
 	checks["C09"] = func(r *Report, p *Program, tier string) {
-		r.Explanation = "Decides acquire/close pairing of every socket on all paths to every return (T1, deferred or explicit; the listener's socket by its stop goroutine), a read deadline of exactly now+configured timeout before every blocking read (T2), that reader goroutines leave their loop on a failed read and their connection is closed by the parent (T7) and leave it ONLY then, however many datagrams arrive (RD: never gives up early), lock release (T3) and that each lock holder computes its deadline after acquiring the lock (T4). Paths are enumerated with the read loops bounded at 2 iterations; the rules are loop-invariant. Not decided: wall-clock durations, descriptor or goroutine counts at run time."
+		r.Explanation = "Decides acquire/close pairing of every socket on all paths to every return (T1, deferred or explicit; the listener's socket by its stop goroutine), a read deadline of exactly now+configured timeout before every blocking read (T2), that reader goroutines leave their loop on a failed read and their connection is closed by the parent (T7) and leave it ONLY then, however many datagrams arrive (RD: never gives up early), lock release (T3) and that each lock holder computes its deadline after acquiring the lock (T4). Paths are enumerated with the read loops bounded at 2 iterations; the rules are loop-invariant. One transport call per operation (F1 single-send), the broadcast-to filter accepts only what the send helper accepts (F2), no connection is turned into a raw descriptor (T13). Not decided: wall-clock durations, descriptor or goroutine counts at run time."
 		r.Assumptions = []string{"a deadline on a net.Conn makes blocked reads return (package net)", "closing a socket unblocks readers", "go/ssa is faithful"}
 		RuleTransport(r, p, aspectSet{"T1": true, "T2": true, "T3": true, "T4": true})
 		RuleShare(r, p, aspectSet{"T7": true})
@@ -199,6 +206,13 @@ func init() {
 		// ... on a datagram the send helper will take: the filter accepts exactly the 64-byte replies of the addressed controller
 		RuleFilter(r, p, aspectSet{"F2": true})
 		RuleNoRawDescriptor(r, p)
+		// one timeout per operation: the send helper makes one transport call per path (a second attempt over
+		// another transport doubles the wait)
+		r.Only = map[string]bool{"F1": true}
+		r.OnlyConstruct = "single-send"
+		RuleFilter(r, p, aspectSet{"F1": true})
+		r.Only = nil
+		r.OnlyConstruct = ""
 		// the listener's goroutines: the consumer ends on every return of Listen (LS3), the driver's two goroutines end after the stop signal (LS6)
 		r.Only = map[string]bool{"LS3": true, "LS6": true}
 		RuleListen(r, p)
@@ -206,7 +220,7 @@ func init() {
 	}
 
 	checks["C10"] = func(r *Report, p *Program, tier string) {
-		r.Explanation = "Decides the listener's structure: per datagram exactly one of {error callback, forward}, forwarding only a 64-byte datagram with non-zero serial that decoded, as a value allocated for that datagram (LS1) whose type holds no reference into the reused receive buffer (LS2, K4); one pipe, one consumer, one event callback per element, consumer ends when the pipe is closed (LS3); connected callback once after the bind and never on a bind error (LS4); shutdown order signal -> await driver -> return nil (LS5); driver closes the socket after the signal, hands the handler exactly the bytes read and closes 'done' after the loop (LS6); the status is wired exactly like GetStatus (A6s); event layouts incl. the 0x19 start-of-message (L7e, F4); the shutdown flag shared by the two driver goroutines (T8). Not decided: delivery under real scheduling beyond 'single pipe, single consumer', nor OS-level rebinding."
+		r.Explanation = "Decides the listener's structure: per datagram exactly one of {error callback, forward}, forwarding only a 64-byte datagram with non-zero serial that decoded, as a value allocated for that datagram (LS1) whose type holds no reference into the reused receive buffer (LS2, K4); one pipe, one consumer, one event callback per element, consumer ends when the pipe is closed (LS3); connected callback once after the bind and never on a bind error (LS4); shutdown order signal -> await driver -> return nil (LS5); driver closes the socket after the signal, hands the handler exactly the bytes read and closes 'done' after the loop (LS6); the status is wired exactly like GetStatus (A6s); event layouts incl. the 0x19 start-of-message (L7e, F4); the shutdown flag shared by the two driver goroutines (T8). A field that is not valid BCD fails the decode (K10a). Not decided: delivery under real scheduling beyond 'single pipe, single consumer', nor OS-level rebinding."
 		r.Assumptions = []string{"Go channels deliver in order to a single receiver", "go/ssa is faithful"}
 		c := NewCodec(r, p, true)
 		if c == nil {
@@ -221,6 +235,8 @@ func init() {
 		// every field of a delivered event is the protocol decoding of its bytes: the date/time decoders parse
 		// with the layout their encoders format with (K10c)
 		RuleK10c(r, c)
+		// every other datagram produces an error: a field that is not valid BCD fails the decode (K10a)
+		RuleK10Only(r, p, map[string]bool{"K10a": true})
 		RuleShareIn(r, p, aspectSet{"T8": true, "T7": true}, func(parent string) bool { return !returnsListName(p, parent) })
 	}
 
@@ -267,7 +283,7 @@ func init() {
 	}
 
 	checks["C14"] = func(r *Report, p *Program, tier string) {
-		r.Explanation = "Decides the structural side of the text/JSON round trips: every hand-written JSON encoder has a decoder (J1); writer layouts/formats are accepted by the reader (J2: date, date-time incl. the zone-abbreviation fallback, HH:mm format vs pattern, PIN width 999999 vs {0,6}); numeric task-type bounds agree with the 13-entry table in both parsers (J3); control-state and weekday texts map back to the value that writes them (J4); decoders that store into a map behind their receiver establish it non-nil first (J5); HH:mm parsers enforce 00:00..24:00 with minutes <= 59 (K10); the four address types delegate to their role parser (AD0). JSON dates are civil days: parsed outside the local zone only for their civil fields and never left at a local midnight the zone may lack (Z1, Z3). Not decided: value-level equality decode(encode(v)) for every value, nor encoding/json's and time's parsing of arbitrary text (zone abbreviations etc.)."
+		r.Explanation = "Decides the structural side of the text/JSON round trips: every hand-written JSON encoder has a decoder (J1); writer layouts/formats are accepted by the reader (J2: date, date-time incl. the zone-abbreviation fallback, HH:mm format vs pattern, PIN width 999999 vs {0,6}); numeric task-type bounds agree with the 13-entry table in both parsers (J3); control-state and weekday texts map back to the value that writes them (J4); decoders that store into a map behind their receiver establish it non-nil first (J5); HH:mm parsers enforce 00:00..24:00 with minutes <= 59 (K10); the four address types delegate to their role parser (AD0). JSON dates are civil days: parsed outside the local zone only for their civil fields and never left at a local midnight the zone may lack (Z1, Z3). No reference to a package-level table becomes part of a decoded value (G2). Not decided: value-level equality decode(encode(v)) for every value, nor encoding/json's and time's parsing of arbitrary text (zone abbreviations etc.)."
 		r.Assumptions = []string{"encoding/json and package time parse as documented", "go/ssa is faithful"}
 		RuleJSON(r, p)
 		RuleJSONStructs(r, p)
@@ -304,7 +320,7 @@ func init() {
 	}
 
 	checks["C17"] = func(r *Report, p *Program, tier string) {
-		r.Explanation = "Decides that the client and its controller table are written only in the constructor (IM1), that Clone of a controller / card allocates every slice and map afresh and the constructor stores clones (IM2), that DeviceList returns a fresh map (IM3), that no operation stores through a reference argument, itself or through a function it hands the argument to (A7, callee summaries), that the listener's handler passes on only a value decoded from the datagram and allocated for it (LS1, LS2), that no decoder lets a view of the message buffer escape into a decoded value (K4, codec and every Unmarshaler) and that driver methods return buffers allocated in the call (T10). Not decided: deep immutability of strings and *time.Location (immutable by language/library)."
+		r.Explanation = "Decides that the client and its controller table are written only in the constructor (IM1), that Clone of a controller / card allocates every slice and map afresh and the constructor stores clones (IM2), that DeviceList returns a fresh map (IM3), that no operation stores through a reference argument, itself or through a function it hands the argument to (A7, callee summaries), that the listener's handler passes on only a value decoded from the datagram and allocated for it (LS1, LS2), that no decoder lets a view of the message buffer escape into a decoded value (K4, codec and every Unmarshaler) and that driver methods return buffers allocated in the call (T10). Results never hold a reference to a package-level map or slice (G2). Not decided: deep immutability of strings and *time.Location (immutable by language/library)."
 		r.Assumptions = []string{"net.IPv4, make, composite literals and conversions allocate fresh storage", "go/ssa is faithful"}
 		c := NewCodec(r, p, true)
 		if c == nil {
